@@ -60,7 +60,7 @@ NEEDED_FACTS = [
     "frac_requested_on_fraction", "text_u2044_between_digits",
     # MarkLigPos component index against the number of component records
     "marklig_component_lt_records", "marklig_component_eq_records", "marklig_component_gt_records",
-    "marklig_no_component_record", "marklig_mark_attached_to_ligature",
+    "marklig_no_component_record", "marklig_mark_attached_to_ligature", "marklig_array_short_err",
     # MarkBase / MarkMark boundaries
     "mark_class_ge_class_count_err", "mark_base_array_short_err", "mark_to_mark_attached",
     "mark_left_unattached_null_anchor_font",
@@ -69,7 +69,7 @@ NEEDED_FACTS = [
     "vertical_layout", "vert_alternate_in_vertical_layout", "alternate_first_selected", "alternate_second_selected",
     "feature_variation_substitution_applied", "last_glyph_id_in_run", "missing_glyph_id_replaced",
     "kern_table_fallback_applied", "mark_overprint_fallback", "gdef_absent_nontrivial", "empty_coverage_font_shaped",
-    "bad_langsys_err",
+    "bad_langsys_err", "custom_fina_on_emptied_run",
     # repeated calls on one Font object
     "call_on_used_font", "call_on_font_after_err", "err_again_on_same_font",
     # every family of synthesized fonts does something
